@@ -3,7 +3,7 @@
 use super::cfg::{BCfg, CCfg};
 use super::oracle::{BObserver, BState, CallResult, SharedB};
 use super::world::{Chronyd, SharedWorld, World};
-use super::{PHC_REFID, ROLE_CLIENT, ROLE_DAEMON, ROLE_HOST, ROLE_PUB};
+use super::{phc_refid_of, PHC_NAMES, ROLE_CLIENT, ROLE_DAEMON, ROLE_HOST, ROLE_PUB};
 use crate::models::{ts_ns, NS};
 use crate::util::*;
 use crate::world_a::{apply_corruption, Corrupt};
@@ -211,11 +211,20 @@ fn client_thread(ci: usize, cc: CCfg, cfg: BCfg, path: PathBuf, st: SharedB, see
     });
 }
 
-fn supervisor(cfg: BCfg, phc: Option<clock_bound_d::PhcInfo>, st: SharedB) {
+fn supervisor(cfg: BCfg, phc: Option<clock_bound_d::PhcInfo>, st: SharedB, path: PathBuf) {
     let end = cfg.start_mono_ns + cfg.horizon_ns;
     for (i, d) in cfg.daemon.iter().enumerate() {
         if verif_rt::now_ns() >= end {
             break;
+        }
+        if d.damage_before {
+            // third-party damage: one magic word of the segment file is overwritten in place
+            // (attached clients keep their mapping; the daemon will find the file unusable)
+            st.lock().unwrap().damaged_ever = true;
+            apply_corruption(&path, &Corrupt::SetField { field: (i % 2) as u8, value: 0xDEAD_0000 | i as u32 });
+            verif_rt::shm::files_changed();
+            verif_rt::mark("env:damage", i as u64, 0, 0);
+            st.lock().unwrap().out.probe("fault.third_party_header_damage");
         }
         let phc2 = phc.clone();
         let drift = cfg.drift_ppb;
@@ -390,12 +399,34 @@ fn pairs_thread(cfg: BCfg, path: PathBuf, st: SharedB, seed: u64) {
                 s.out.violate(&["C17"], "header_struct_sizes", "size".into(), format!("C sizes err={} now_result={} vs Rust {} / {}", k[8], k[9], std::mem::size_of::<clockbound::clockbound_err>(), std::mem::size_of::<clockbound::clockbound_now_result>()));
             }
         }
+        let mut held: Option<(Client, Client)> = None;
         for _ in 0..cfg.pairs {
             let t = verif_rt::now_ns() + *r.pick(&[50_000_000i64, 500_000_000, 1_100_000_000, 2_500_000_000]) + r.range(0, 100_000_000);
             if t >= end {
                 break;
             }
             verif_rt::sleep_until(t);
+            // a pair opened at the previous instant and not queried since: the first query of
+            // each, at one frozen instant, must agree as well (neither library may have read the
+            // segment earlier than the other)
+            if let Some((mut hr, mut hc)) = held.take() {
+                let (a, b) = verif_rt::freeze(|| (guarded_now(&mut hr).0, guarded_now(&mut hc).0));
+                verif_rt::freeze(|| {
+                    drop(hr);
+                    drop(hc);
+                });
+                let mut s = st.lock().unwrap();
+                s.out.probe("judged.held_pair_first_queries");
+                if !same_result(&a, &b) {
+                    s.out.violate(&["C17"], "rust_and_c_clients_disagree", "held_pair".into(), format!("opened at one instant, first queried at another (same for both): Rust client {a:?}, C client {b:?}"));
+                }
+            }
+            if r.chance(60) {
+                held = verif_rt::freeze(|| match (Client::open(1, &path), Client::open(3, &path)) {
+                    (Ok(a), Ok(b)) => Some((a, b)),
+                    _ => None,
+                });
+            }
             let (a, b) = verif_rt::freeze(|| {
                 let a = match Client::open(1, &path) {
                     Ok(mut c) => guarded_now(&mut c).0,
@@ -484,7 +515,8 @@ pub fn run(cfg: &BCfg, run_seed: u64, replay: Option<Vec<u32>>, trace: bool, san
         trace,
         preempts: Vec::new(),
     };
-    let phc = if cfg.phc != 0 { Some(clock_bound_d::PhcInfo { refid: PHC_REFID, sysfs_error_bound_path: world.lock().unwrap().phc_path.clone() }) } else { None };
+    let phc_refid = clock_bound_d::refid_to_u32(PHC_NAMES[cfg.phc_name as usize % PHC_NAMES.len()]).unwrap_or_else(|_| phc_refid_of(cfg.phc_name));
+    let phc = if cfg.phc != 0 { Some(clock_bound_d::PhcInfo { refid: phc_refid, sysfs_error_bound_path: world.lock().unwrap().phc_path.clone() }) } else { None };
     let mut procs = Vec::new();
     let mut seeds = Rng::new(mix(cfg.world_seed, 0xC11E));
     if synthetic {
@@ -492,8 +524,8 @@ pub fn run(cfg: &BCfg, run_seed: u64, replay: Option<Vec<u32>>, trace: bool, san
         procs.push(verif_rt::ProcSpec { name: "synthetic".into(), role: ROLE_HOST, f: Box::new(move || synthetic_thread(c2, p2, s2, w2, sd)) });
     } else {
         if !cfg.daemon.is_empty() {
-            let (c2, s2) = (cfg.clone(), st.clone());
-            procs.push(verif_rt::ProcSpec { name: "supervisor".into(), role: ROLE_HOST, f: Box::new(move || supervisor(c2, phc, s2)) });
+            let (c2, s2, p2) = (cfg.clone(), st.clone(), path.clone());
+            procs.push(verif_rt::ProcSpec { name: "supervisor".into(), role: ROLE_HOST, f: Box::new(move || supervisor(c2, phc, s2, p2)) });
         }
         for (ci, cc) in cfg.clients.iter().enumerate() {
             let (cc, c2, p2, s2, sd) = (cc.clone(), cfg.clone(), path.clone(), st.clone(), seeds.next());
@@ -549,6 +581,7 @@ pub fn run(cfg: &BCfg, run_seed: u64, replay: Option<Vec<u32>>, trace: bool, san
         match p.phc {
             super::world::PhcState::Missing => out.probe("fault.phc_file_missing"),
             super::world::PhcState::Garbage => out.probe("fault.phc_file_garbage"),
+            super::world::PhcState::Unreadable => out.probe("fault.phc_file_unreadable"),
             _ => {}
         }
     }
